@@ -213,8 +213,12 @@ impl ThunkLayoutBuilder {
         let primary_range_for_symbol = |definition_id: SymbolId| -> Option<(u64, u64)> {
             let definition_flags = per_symbol_flags.flags_for_symbol(definition_id);
 
+            // A symbol with a PLT entry (e.g. an interposable function when writing a shared object)
+            // is branched to via its PLT entry, which is in a non-primary part, not via its
+            // definition.
             if definition_flags.contains(ValueFlags::IFUNC)
                 || definition_flags.contains(ValueFlags::DYNAMIC)
+                || definition_flags.contains(ValueFlags::PLT)
                 || symbol_db.part_id_for_symbol(definition_id) != self.primary_function_part_id
             {
                 return None;
